@@ -97,6 +97,28 @@ def judge_layouts(case):
                 got2 = base.to_plain(N2[1])
                 if base.typed(got2) != base.typed(exp2):
                     return dict(texts=texts, reason=f"'key: !include [..]' {what} is not the merged content of the files placed there", expected=repr(exp2)[:300], got=repr(got2)[:300])
+            # ... and when an EARLIER document already holds content at the key: the included files are built on their own first
+            # (list operators / !notnew inside them act on the included sequence, not on the outer config), then placed
+            import yaml as _yaml
+
+            def older(v):
+                if isinstance(v, dict):
+                    return {k: older(x) for k, x in v.items()}
+                if isinstance(v, list):
+                    return ['old1', 'old2']
+                return 'old'
+            basef = sb.write('d/outer.yaml', _yaml.safe_dump({'k': older(merged), 'q': 0}, default_flow_style=True, sort_keys=False))
+            inline = sb.write('d/inline.yaml', _yaml.safe_dump({'k': merged}, default_flow_style=True, sort_keys=False))
+            R = build([basef, inline])
+            # (the reference places the PLAIN merged data: only meaningful when the files carry no priority / delete / new marks)
+            tagfree = all('!' not in t.replace('!append', '').replace('!extend', '') for t in texts)
+            for nm_list in (() if not tagfree else (([names[0]], names) if len(names) > 1 else ([names[0]],))):
+                if nm_list is names or len(texts) == 1:
+                    inc2 = sb.write('d/inc2.yaml', 'k: !include [' + ', '.join(nm_list) + ']\n')
+                    N3 = build([basef, inc2])
+                    if plain_of(N3) != plain_of(R):
+                        return dict(texts=texts, reason="'key: !include [..]' onto an existing key is not the merged content of the files merged at that key",
+                                    expected=repr(plain_of(R))[:300], got=repr(plain_of(N3))[:300])
         elif N[0] == 'ok':
             return dict(texts=texts, reason="'key: !include [..]' succeeded although merging the files fails", separate=L1[0])
     return None
@@ -305,6 +327,10 @@ def run(rep, tier, rng):
     rep.checker_cmds.append(cmd)
     rep.oblige(f'T3 correspondence Model.PathRef.locate = os.path.normpath(os.path.join(cwd, name)) on {len(litems2)} cases', not bad and not errors,
                (f'{len(bad)} disagreements' if bad else '') + (errors[0]['log'][-400:] if errors else ''))
+    # directed: single documents (and pairs) that use list operators / !notnew, which act at premerge time
+    for tx in (['{steps: !append [c], n: 1}'], ['{steps: !extend [c]}'], ['{steps: [a], m: {x: 1}}', '{steps: !append [c], m: {x: 2}}'], ['{a: {b: !extend [1]}, l: !append [2]}'],
+               ['{p: [1, 2], q: {r: 1}}'], ['{p: [1], q: 2}', '{p: !extend [3]}']):
+        layouts.append(dict(texts=tx))
     base.run_oracle(rep, 'C06', 'five layouts of one document sequence build the same config', layouts, judge_layouts)
     lk = []
     for k in (1, 2, 3):
